@@ -11,6 +11,9 @@ CLAIMED = {
          "Trusted: z3, go/ssa, engine intrinsics for bytealg/math/big (Int theory, Skolem decimal digits). Bound: strings <= 4 bytes (quick). Longer strings are outside the claim.", "5/C15"),
 }
 
+CLAIMED["C14"] = ("The real hdkeychain Child/Neuter/String/NewKeyFromString are executed symbolically for arbitrary parent keys (private scalar stored in 1..32 bytes, arbitrary chain code, index, depth) with HMAC-SHA512, SHA-256, RIPEMD-160 and secp256k1 as uninterpreted functions and compared with the BIP-32 CKDpriv/CKDpub/serialisation formulas written against the same primitives; z3 decides every assertion on every path. The derivation formulas are pure byte/bignum plumbing around opaque primitives, exactly what bounded symbolic execution decides; the known defect (short parent scalar) is a 1/256 corner that tests with fixed vectors do not reach.",
+         "Trusted: z3, go/ssa, intrinsics (math/big as 264-bit vectors, x mod n by Skolem quotient, hashes/curve uninterpreted, base58 injective). Not claimed: correctness of HMAC/curve arithmetic; the ki=0 / IL>=n branches cannot be replayed (need hash pre-images). One derivation step from an arbitrary parent covers paths of any depth by induction on the parent invariant 0<k<n.", "5/C14")
+
 NOT_YET = {}
 
 def main():
